@@ -199,6 +199,17 @@ def check(x, res, tempo):
         ts0, idx0 = be.timestamp_at_tick(tick)
         if (ts0 // US, idx0) != (ts, idx):
             return f"{kind} event at tick {tick} stores ({ts} µs, index {idx}) but the un-hinted query gives ({ts0 // US} µs, index {idx0})"
+    # … and the time at which a note ends is the un-hinted query for the tick at which it ends (its own tick plus its longest lane)
+    for key, tr in sorted(d["tracks"].items()):
+        for n in tr.get("notes", []):
+            sus = n["sus"]
+            lens = [int(sus[1:])] if sus.startswith("S") else [int(v) for v in sus[1:].split(":") if v != "~"]
+            if not lens:
+                continue
+            te = n["tick"] + max(lens)
+            ts1 = be.timestamp_at_tick_no_optimize_return(te)
+            if ts1 // US != n["end"]:
+                return f"the note at tick {n['tick']} ends at tick {te}; it stores the end time {n['end']} µs but the un-hinted query for that tick gives {ts1 // US} µs"
     return None
 
 
